@@ -270,10 +270,37 @@ class Impl:
             bad = _coherent(self.r.get(x))
             if bad:
                 return "INCOHERENT:" + bad
+        if self.ub_class(op):
+            return "UB"       # bonds.pyx would read mask_v[atom] out of bounds; probed in a forked child by the oracle
+        return self.raw(op)
+
+    def raw(self, op):
         try:
             return "ok " + self._do(op.split())
         except Exception as e:  # noqa: BLE001
             return "ERR:" + type(e).__name__
+
+    def ub_class(self, op):
+        """A size-0 boolean ndarray reaches BondList.__getitem__ of a bond list with >= 1 bond (numpy accepts a
+        size-0 boolean index on any axis, bonds.pyx then indexes the empty mask without bounds check)."""
+        from biotite.structure import AtomArray, AtomArrayStack
+        w = op.split()
+        if w[0] not in ("get", "get2"):
+            return False
+        src = self.r.get(w[2])
+        if not isinstance(src, (AtomArray, AtomArrayStack)) or src.bonds is None or src.bonds.get_bond_count() == 0:
+            return False
+        stack = isinstance(src, AtomArrayStack)
+        if w[0] == "get":
+            return (not stack) and w[3] in ("m", "n")
+        if w[4] not in ("m", "n"):
+            return False
+        if not stack:
+            return w[3] == "e"
+        k0, p0 = dec_idx(w[3])
+        if k0 == "int":
+            return -src.stack_depth() <= p0 < src.stack_depth()
+        return True
 
     def _bondlist(self, n, b):
         import numpy as np
@@ -523,6 +550,11 @@ class Ref:
             ann.update({k: v[0] for k, v in dec_cols(cols)})
             r[d] = RA(ann, [int(c)])
             return canon_ref(r[d])
+        if o in ("get", "get2") and isinstance(r.get(w[2]), RC) and r[w[2]].bonds:
+            c = r[w[2]]
+            atom_ix = w[4] if o == "get2" else (w[3] if not c.stack else "e")
+            if atom_ix in ("m", "n") and len(c.atoms) > 0:
+                raise Reject("boolean mask of the wrong length (0) on a container with bonds")
         if o == "get":
             c = self._arr(w[2])
             kind, p = dec_idx(w[3])
@@ -829,7 +861,17 @@ def oracle(case):
     impl, ref = Impl(), Ref()
     for k, op in enumerate(ops):
         src_before = impl.r.get(op.split()[2]) if op.startswith("copy ") else None
+        if impl.ub_class(op):
+            from common import sandbox
+            res = sandbox.run_forked(impl.raw, op, timeout=60)
+            outcome = res[1] if res[0] == "ok" else "-".join(str(x) for x in res)
+            if outcome != "ERR:IndexError":
+                return [("C01/getitem/mask-wrong-length+bonds/unchecked",
+                         f"op {k} `{op}`: a size-0 boolean mask on a container with {len(impl.r[op.split()[2]].bonds.as_array())} bond(s) "
+                         f"is not rejected; bonds.pyx indexes the mask without bounds check; outcome in a forked child: {outcome[:200]}")]
         real = impl.do(op)
+        if real == "UB":
+            real = "ERR:IndexError"      # (only reached if the forked probe saw the IndexError the property asks for)
         try:
             exp = "ok " + ref.do(op)
         except Reject as e:
@@ -945,8 +987,8 @@ class Gen:
             return f"s{f()}:{f()}:{step}"
         if kind in ("mask", "nmask", "blist"):
             ln = n if rng.random() < 0.93 else max(0, n + rng.choice([-1, 1, 2]))
-            if ln == 0 and n > 0 and kind != "blist":
-                ln = n + 1        # an empty ndarray mask on a bonded container reads out of bounds (known finding; probed separately)
+            if ln == 0 and n > 0 and kind != "blist" and rng.random() < 0.6:
+                ln = n + 1        # keep the size-0 ndarray mask rare: on a bonded container it is probed in a forked child
             p = rng.choice([0.2, 0.5, 0.8, 1.0])
             return {"mask": "m", "nmask": "n", "blist": "b"}[kind] + "".join("1" if rng.random() < p else "0" for _ in range(ln))
         if kind in ("arr", "uarr", "list"):
